@@ -2,7 +2,60 @@
 
 package client
 
+import (
+	"context"
+	"net"
+
+	"go.miragespace.co/specter/spec/protocol"
+	"go.miragespace.co/specter/spec/rpc"
+	"go.miragespace.co/specter/spec/rtt"
+	"go.miragespace.co/specter/util/acceptor"
+
+	"github.com/zhangyunhao116/skipmap"
+	"go.uber.org/atomic"
+	"go.uber.org/zap"
+)
+
 // Accessors for the simulation harness (overlaid at build time, tag verif).
 
 func (c *Config) VerifWriteFile() error { return c.writeFile() }
 func (c *Config) VerifPath() string     { return c.path }
+
+// VerifNewClient builds a Client the way NewClient does, minus the network
+// bootstrap: the harness supplies the tunnel RPC client and the set of
+// connected gateways.
+func VerifNewClient(ctx context.Context, cfg *Config, tc rpc.TunnelClient, rec rtt.Recorder, root string) *Client {
+	c := &Client{
+		ClientConfig: ClientConfig{Logger: zap.NewNop(), Configuration: cfg, Recorder: rec},
+		parentCtx:    ctx,
+		rootDomain:   atomic.NewString(root),
+		proxies:      skipmap.NewString[*httpProxy](),
+		connections:  skipmap.NewString[*protocol.Node](),
+		tunnelClient: tc,
+		rpcAcceptor:  acceptor.NewH2Acceptor(nil),
+		closeCh:      make(chan struct{}),
+	}
+	cfg.buildRouter()
+	return c
+}
+
+func (c *Client) VerifAddConnection(n *protocol.Node) { c.connections.Store(n.GetAddress(), n) }
+func (c *Client) VerifDropConnection(addr string)    { c.connections.Delete(addr) }
+
+func (c *Client) VerifHandleIncoming(ctx context.Context, link *protocol.Link, conn net.Conn) error {
+	return c.handleIncomingDelegation(ctx, link, conn)
+}
+func (c *Client) VerifDoReload(ctx context.Context) { c.doReload(ctx) }
+func (c *Client) VerifTunnels() []Tunnel {
+	c.configMu.RLock()
+	defer c.configMu.RUnlock()
+	return append([]Tunnel{}, c.Configuration.Tunnels...)
+}
+func (c *Client) VerifProxyHostnames() []string {
+	var out []string
+	c.proxies.Range(func(k string, _ *httpProxy) bool { out = append(out, k); return true })
+	return out
+}
+func (c *Client) VerifShutdownProxies() {
+	c.proxies.Range(func(k string, p *httpProxy) bool { p.acceptor.Close(); p.forwarder.Close(); return true })
+}
